@@ -239,7 +239,7 @@ theorem build_keys_nodup (F : Facts11) (tns : Text) (ms : List Method) (r : Rout
 
 /-- every collected pattern belongs to the head of a route of the table -/
 theorem mem_httpPatterns {r : Routes} {p : Pat} (h : p ∈ httpPatterns r) :
-    ∃ k hd tl, (k, hd :: tl) ∈ r ∧ p.endpoint = hd.name ∧ p.efid = hd.fid := by
+    ∃ k hd tl, (k, hd :: tl) ∈ r ∧ p.endpoint = hd.msgName ∧ p.efid = hd.fid := by
   unfold httpPatterns at h
   rw [List.mem_flatMap] at h
   obtain ⟨⟨k, v⟩, hkv, hp⟩ := h
@@ -255,7 +255,7 @@ theorem mem_httpPatterns {r : Routes} {p : Pat} (h : p ∈ httpPatterns r) :
 theorem pattern_runs (F : Facts11) (hA : F.auxFirst = .insertFront) (hI : F.ifaceDup = .reject)
     (hQ : F.qualify = .unlessBrace) (hE : F.emptyIsNotFound = true)
     (tns : Text) (ms : List Method) (r : Routes) (hb : build F tns ms = .ok r)
-    (hn : ∀ m ∈ ms, m.name.head? ≠ some '{') (verb path : Text) (p : Pat)
+    (hn : ∀ m ∈ ms, m.name.head? ≠ some '{') (hmsg : ∀ m ∈ ms, m.msgName = m.name) (verb path : Text) (p : Pat)
     (hc : choosePattern (httpPatterns r) verb path = some p) :
     httpRequest r verb path = .endpoint p.endpoint ∧
     ∃ hd tl, hd ∈ ms ∧ hd.fid = p.efid ∧ hd.name = p.endpoint ∧
@@ -271,6 +271,7 @@ theorem pattern_runs (F : Facts11) (hA : F.auxFirst = .insertFront) (hI : F.ifac
     rcases List.mem_append.mp hin with h | h
     · have := mem_prims.mp h; exact ⟨this.1, this.2.2⟩
     · have := mem_auxs.mp h; exact ⟨this.1, this.2.2⟩
+  have he : p.endpoint = hd.name := by rw [he, hmsg hd hdms]
   have hkey : requestKey F tns (.endpoint p.endpoint) = k := by
     simp only [requestKey, requestString, qualify_good F hQ, he, hn hd hdms, if_false]
     exact hk
